@@ -79,6 +79,9 @@ def check(run, views, tier):
     for cfg, crates in views.items():
         run.cfg = cfg
         F = crates["ipp"]
+        from ..engine import include as _inc
+        from . import c10 as _c10
+        _inc(run, _c10, {cfg: {"ipp": F}}, tier, "R-BUILDERS")
         b = F.body(FN)
         if b is None:
             run.anchor_lost("R-TAINT-URI", FN)
